@@ -17,14 +17,7 @@ def c16_differential(pid, stage, tier, seed, outdir, chk):
         for ok, msg in ex.map(chk.build_variant, names):
             if not ok:
                 return {"build_error": msg}
-    for name in sorted(k for k in chk.VARIANTS if k.startswith("feat-")):
-        st = {"variant": name, "workload": "C16", "crash_props": ["C16"]}
-        m = chk.run_stage(pid, st, tier, seed, outdir)
-        if "build_error" in m:
-            # "under every combination the library builds" is part of the property: but a build
-            # failure of the harness is indistinguishable here, so it stays a build error
-            return m
-        per[name] = m.get("transcripts", {})
+    def reattribute(m, name):
         # "comparing against the reference model configured the same way": a clause of any behavioural monitor that
         # fails in this build is this build not behaving as its configuration says -- reported under C16, named after
         # the monitor that saw it and the build
@@ -40,6 +33,23 @@ def c16_differential(pid, stage, tier, seed, outdir, chk):
                 k = "%s|%s:%s|%s@%s" % (pid, pr, cl, tg, name)
             vc[k] = vc.get(k, 0) + n
         m["violation_counts"] = vc
+
+    for name in sorted(k for k in chk.VARIANTS if k.startswith("feat-")):
+        # closure of small-buffer sessions under this build's monitors
+        st = {"variant": name, "workload": "C16-sclosure", "crash_props": ["C16"], "args_quick": ["--scale", "0.25"], "args_thorough": ["--scale", "0.25"]}
+        mc = chk.run_stage(pid, st, tier, seed, outdir)
+        if "build_error" in mc:
+            return mc
+        reattribute(mc, name)
+        st = {"variant": name, "workload": "C16", "crash_props": ["C16"]}
+        m = chk.run_stage(pid, st, tier, seed, outdir)
+        if "build_error" in m:
+            # "under every combination the library builds" is part of the property: but a build
+            # failure of the harness is indistinguishable here, so it stays a build error
+            return m
+        per[name] = m.get("transcripts", {})
+        chk.merge_merged(total, mc)
+        reattribute(m, name)
         total["stage_extra"]["builds"].append({"build": name, "sessions": m["cases"], "violations": sum(m["violation_counts"].values())})
         chk.merge_merged(total, m)
     full = per.get("feat-111", {})
